@@ -433,52 +433,99 @@ Proof.
   elim Hne. now rewrite (H d d' Hd Hd' Heq).
 Qed.
 
-(* ------------------------------------------------------------------ resolve_term_references keeps rules *)
+(* ------------------------------------------------------------------ terminals are tree objects *)
 Definition same_shape (d d' : defn) : Prop :=
   d_name d' = d_name d /\ d_term d' = d_term d /\ (d_term d = false -> d' = d).
 
-Lemma map_result_Forall2 {A B} (f : A -> result B) (R : A -> B -> Prop) l l' :
-  (forall x y, f x = Ok y -> R x y) -> map_result f l = Ok l' -> Forall2 R l l'.
+Lemma same_shape_refl1 d : same_shape d d.
+Proof. unfold same_shape. auto. Qed.
+
+Lemma alloc_spec d b :
+  same_shape d (fst (alloc d b)) /\
+  b_defs (snd (alloc d b)) = b_defs b /\ b_ignore (snd (alloc d b)) = b_ignore b /\
+  (forall o, o <> b_next b -> hget o (b_heap (snd (alloc d b))) = hget o (b_heap b)).
 Proof.
-  intros Hf. revert l'. induction l as [|x r IH]; simpl; intros l' H.
-  - inversion H. constructor.
-  - destruct (f x) as [y|] eqn:E; simpl in H; [|discriminate].
-    destruct (map_result f r) as [r'|] eqn:E2; simpl in H; [|discriminate].
-    inversion H. constructor; auto.
+  unfold alloc. destruct (d_term d) eqn:E; destruct (d_tree d); simpl; unfold same_shape; simpl;
+    repeat split; auto; try (intros; congruence).
+  intros o Ho. destruct (Nat.eqb_spec o (b_next b)); [contradiction | reflexivity].
 Qed.
 
-Lemma resolve_round_shape l l' : resolve_round l = Ok l' -> Forall2 same_shape l l'.
+Lemma norm_shape g d d' : same_shape d d' -> same_shape (norm_def g d) (norm_def g d').
 Proof.
-  unfold resolve_round. apply map_result_Forall2. intros d d' H.
-  destruct (d_term d) eqn:Et.
-  - destruct (d_tree d) as [t|].
-    + destruct (resolve_pass _ t) as [t'|]; simpl in H; [|discriminate]. inversion H. subst d'.
-      unfold same_shape; simpl. repeat split; auto. congruence.
-    + inversion H. subst. unfold same_shape. repeat split; auto.
-  - inversion H. subst. unfold same_shape. repeat split; auto.
+  intros (N & T & E). unfold same_shape, norm_def; simpl. repeat split; auto.
+  intros Ht. now rewrite (E Ht).
 Qed.
 
-Lemma same_shape_refl l : Forall2 same_shape l l.
-Proof. induction l; constructor; auto. unfold same_shape. auto. Qed.
-
-Lemma same_shape_trans l1 l2 l3 :
-  Forall2 same_shape l1 l2 -> Forall2 same_shape l2 l3 -> Forall2 same_shape l1 l3.
+Lemma define_stmt_spec g o d b b' :
+  define_stmt g o d b = Ok b' ->
+  exists d', same_shape d d' /\ define g o d' (b_defs b) = Ok (b_defs b') /\ b_ignore b' = b_ignore b.
 Proof.
-  intros H. revert l3. induction H as [|a b r1 r2 Hab Hr IH]; intros l3 H3; inversion H3; subst; constructor; auto.
-  destruct Hab as (N1 & T1 & E1). destruct H1 as (N2 & T2 & E2).
-  unfold same_shape. repeat split; try congruence.
-  intros Ht. rewrite E2 by congruence. now apply E1.
+  unfold define_stmt. destruct (alloc d b) as [d' b1] eqn:Ea.
+  destruct (alloc_spec d b) as (Hs & Hd & Hi & _). rewrite Ea in Hs, Hd, Hi. simpl in *.
+  destruct (define g o d' (b_defs b1)) as [l|] eqn:E; simpl; [|discriminate].
+  intros H; inversion H; subst b'; clear H. simpl.
+  exists d'. rewrite <- Hd. auto.
 Qed.
 
-Lemma resolve_terms_shape fuel : forall l l', resolve_terms fuel l = Ok l' -> Forall2 same_shape l l'.
+(* %override of a terminal makes a NEW tree object and leaves every existing object alone: trees that
+   already hold the old object (imported terminals built from it) keep seeing the old one (finding F35) *)
+Theorem override_term_fresh_object g d b b' t :
+  d_term d = true -> d_tree d = Some t -> define_stmt g true d b = Ok b' ->
+  b_heap b' = (b_next b, t) :: b_heap b /\
+  find_def (d_name d) (b_defs b') =
+    Some (norm_def g (mkDef (d_name d) true (Some (Ptr (b_next b))) (d_params d) (d_opts d))).
 Proof.
-  induction fuel as [|f IH]; simpl; intros l l' H.
-  - destruct (needs_resolve l); [discriminate|]. inversion H. apply same_shape_refl.
-  - destruct (needs_resolve l).
-    + destruct (resolve_round l) as [l1|] eqn:E; simpl in H; [|discriminate].
-      eapply same_shape_trans. apply resolve_round_shape; eauto. now apply IH.
-    + inversion H. apply same_shape_refl.
+  unfold define_stmt, alloc. intros Ht Hd. rewrite Ht, Hd.
+  destruct (define g true _ _) as [l|] eqn:E; simpl; [|discriminate].
+  intros H; inversion H; subst b'; clear H. simpl. split; auto.
+  apply override_replaces in E. simpl in E. apply E.
 Qed.
+
+Lemma hget_hset_same o t h : hget o (hset o t h) = Some t.
+Proof.
+  induction h as [|[k t'] r IH]; simpl.
+  - now rewrite Nat.eqb_refl.
+  - destruct (Nat.eqb_spec o k); simpl.
+    + subst. now rewrite Nat.eqb_refl.
+    + destruct (Nat.eqb_spec o k); [contradiction | exact IH].
+Qed.
+
+Lemma hget_hset_other o o' t h : o' <> o -> hget o' (hset o t h) = hget o' h.
+Proof.
+  intros Hne. induction h as [|[k t'] r IH]; simpl.
+  - destruct (Nat.eqb_spec o' o); [contradiction | reflexivity].
+  - destruct (Nat.eqb_spec o k); simpl.
+    + subst k. destruct (Nat.eqb_spec o' o); [contradiction | reflexivity].
+    + destruct (Nat.eqb_spec o' k); auto.
+Qed.
+
+(* %extend of a terminal changes the terminal's tree OBJECT in place: the object gets the new
+   alternative in front, no other object and no definition changes - so every tree that holds the
+   object (a terminal built from this one, also one imported earlier) sees the extension *)
+Theorem extend_term_in_place d b b' old o base exp :
+  extend_stmt d b = Ok b' ->
+  find_def (d_name d) (b_defs b) = Some old -> d_tree old = Some (Ptr o) ->
+  hget o (b_heap b) = Some base -> d_tree d = Some exp ->
+  hget o (b_heap b') = Some (add_alternative exp base) /\
+  (forall o', o' <> o -> hget o' (b_heap b') = hget o' (b_heap b)) /\
+  map d_name (b_defs b') = map d_name (b_defs b) /\
+  (forall n, option_map d_tree (find_def n (b_defs b')) = option_map d_tree (find_def n (b_defs b))) /\
+  b_ignore b' = b_ignore b.
+Proof.
+  unfold extend_stmt. intros H Hf Ht Hh He.
+  destruct (extend d (b_defs b)) as [l|] eqn:E; simpl in H; [|discriminate].
+  rewrite Hf, He, Ht, Hh in H. inversion H; subst b'; clear H. simpl.
+  split; [apply hget_hset_same|]. split; [intros; now apply hget_hset_other|].
+  destruct (extend_is_alternative _ _ _ E exp He) as (old' & base' & Hf' & Hb' & _ & _ & Hnew & Hnames & Hother).
+  rewrite Hf in Hf'. inversion Hf'; subst old'. rewrite Ht in Hb'. inversion Hb'; subst base'.
+  split; auto. split; auto.
+  intros n. destruct (String.eqb_spec n (d_name d)) as [->|Hn].
+  - rewrite Hnew, Hf. simpl. now rewrite Ht.
+  - now rewrite Hother.
+Qed.
+
+Lemma deref_ptr f h o t : hget o h = Some t -> deref (S f) h (Ptr o) = deref f h t.
+Proof. simpl. now intros ->. Qed.
 
 (* ------------------------------------------------------------------ do_import *)
 Lemma clashes_false a b :
@@ -494,26 +541,27 @@ Theorem do_import_spec loader fs ls b imp b' :
   let ls' := (join "__" (fst imp), snd imp) :: ls in
   exists ms gb kept,
     lookup_module (fst imp) fs = Some ms /\
-    loader ls' ms = Ok gb /\
+    loader (b_next b) ls' ms = Ok gb /\
     (forall d, In d kept <-> In d (b_defs gb) /\
                              Reach (b_defs gb) (map (mangle ls') (map fst (snd imp))) (d_name d)) /\
     (forall d, In d kept -> defined (d_name d) (b_defs b) = false) /\
-    b_defs b' = (b_defs b ++ kept)%list /\ b_ignore b' = b_ignore b.
+    b_defs b' = (b_defs b ++ kept)%list /\ b_ignore b' = b_ignore b /\
+    b_heap b' = (b_heap b ++ b_heap gb)%list.
 Proof.
   unfold do_import. cbv zeta. intros H.
   destruct (lookup_module (fst imp) fs) as [ms|]; [|discriminate].
-  destruct (loader _ ms) as [gb|] eqn:El; simpl in H; [|discriminate].
+  destruct (loader _ _ ms) as [gb|] eqn:El; simpl in H; [|discriminate].
   destruct (remove_unused _ _) as [kept|] eqn:Er; simpl in H; [|discriminate].
   destruct (clashes kept (b_defs b)) eqn:Ec; [discriminate|]. inversion H; subst b'; clear H.
   exists ms, gb, kept.
   apply remove_unused_is_reachability in Er. destruct Er as [_ Hr].
-  split; auto. split; auto. split; [exact Hr|]. split; [now apply clashes_false|]. split; reflexivity.
+  split; auto. split; auto. split; [exact Hr|]. split; [now apply clashes_false|]. repeat split; reflexivity.
 Qed.
 
 (* a clash with an existing definition is an error, never a capture *)
 Theorem import_clash_is_error loader fs ls b imp ms gb kept d :
   lookup_module (fst imp) fs = Some ms ->
-  loader ((join "__" (fst imp), snd imp) :: ls) ms = Ok gb ->
+  loader (b_next b) ((join "__" (fst imp), snd imp) :: ls) ms = Ok gb ->
   remove_unused (b_defs gb) (map (mangle ((join "__" (fst imp), snd imp) :: ls)) (map fst (snd imp))) = Ok kept ->
   In d kept -> defined (d_name d) (b_defs b) = true ->
   do_import loader fs ls b imp = Err EClash.
@@ -529,34 +577,76 @@ Lemma collect_imports_defs k ds acc :
             (map (SDef k) ds) acc = acc.
 Proof. revert acc. induction ds; simpl; auto. Qed.
 
-Lemma apply_stmts_defs g ls ds b :
-  apply_stmts g ls (map (SDef KDefine) ds) b =
-  (l <- define_all g ls ds (b_defs b) ;; Ok (mkB l (b_ignore b))).
+Lemma apply_stmts_err g ls ss e :
+  fold_left (fun acc s => b' <- acc ;; apply_stmt g ls s b') ss (Err e) = Err e.
+Proof. induction ss; simpl; auto. Qed.
+
+Lemma apply_defs_spec g ls ds : forall b b',
+  apply_stmts g ls (map (SDef KDefine) ds) b = Ok b' ->
+  exists ds', Forall2 same_shape (map (mangle_def ls) ds) ds' /\
+    b_defs b' = (b_defs b ++ map (norm_def g) ds')%list /\
+    NoDup (map (fun d => mangle ls (d_name d)) ds) /\
+    (forall d, In d ds -> defined (mangle ls (d_name d)) (b_defs b) = false) /\
+    b_ignore b' = b_ignore b.
 Proof.
-  unfold apply_stmts, define_all. revert b. induction ds as [|d ds IH]; intros b; simpl.
-  - destruct b; reflexivity.
-  - destruct (define g false (mangle_def ls d) (b_defs b)) as [l1|e] eqn:E; simpl.
-    + rewrite IH. reflexivity.
-    + rewrite define_all_err. clear. induction ds; simpl; auto.
+  unfold apply_stmts. induction ds as [|d ds IH]; simpl; intros b b' H.
+  - inversion H; subst. exists []. rewrite app_nil_r. repeat split; auto; try constructor. intros d [].
+  - destruct (define_stmt g false (mangle_def ls d) b) as [b1|e] eqn:E.
+    2:{ rewrite apply_stmts_err in H. discriminate. }
+    apply define_stmt_spec in E. destruct E as (d1 & Hs & Hdef & Hi).
+    apply define_ok in Hdef. destruct Hdef as (Hb1 & Hd & _).
+    destruct Hs as (N & T & Eq). simpl in N.
+    rewrite set_def_undefined in Hb1 by (simpl; exact Hd).
+    apply IH in H. destruct H as (ds' & Hf & Hdefs & Hnd & Hfresh & Hi').
+    exists (d1 :: ds'). split.
+    { constructor; auto. unfold same_shape. auto. }
+    split. { rewrite Hdefs, Hb1. simpl. now rewrite <- app_assoc. }
+    assert (Hlast : defined (mangle ls (d_name d)) (b_defs b1) = true).
+    { apply defined_In. rewrite Hb1, map_app. apply in_or_app. right. simpl. left. exact N. }
+    split.
+    + constructor; auto. intros Hin. apply in_map_iff in Hin. destruct Hin as (d' & Heq & Hd').
+      specialize (Hfresh _ Hd'). rewrite Heq in Hfresh. congruence.
+    + split; [|congruence].
+      intros d' [<-|Hd'].
+      * rewrite <- N. exact Hd.
+      * specialize (Hfresh _ Hd').
+        destruct (defined (mangle ls (d_name d')) (b_defs b)) eqn:E; auto.
+        apply defined_In in E.
+        assert (defined (mangle ls (d_name d')) (b_defs b1) = true).
+        { apply defined_In. rewrite Hb1, map_app. apply in_or_app. now left. }
+        congruence.
 Qed.
 
+Lemma load_S f fs g ls ss b :
+  load (S f) fs g ls ss b =
+  (b1 <- fold_left
+           (fun acc imp => b' <- acc ;;
+                           do_import (fun next ls' ms => load f fs g ls' ms (fresh_builder next)) fs ls b' imp)
+           (collect_imports ss) (Ok b) ;;
+   b2 <- apply_stmts g ls ss b1 ;;
+   h <- resolve_heap (b_defs b2) (b_heap b2) ;;
+   Ok (mkB (b_defs b2) (b_ignore b2) h (b_next b2))).
+Proof. reflexivity. Qed.
+
+(* resolve_term_references never touches the definitions themselves (only tree objects of terminals) *)
 (* loading a module that consists of plain definitions, under a mangle: every definition is the
-   renamed one, in the order of the file; rules are exactly mangle_def of the source rule *)
-Local Opaque resolve_terms.
-Theorem load_flat_module f fs g ls ds gb :
-  load (S f) fs g ls (map (SDef KDefine) ds) empty_builder = Ok gb ->
+   renamed one, in the order of the file; rules are exactly mangle_def of the source rule; terminals
+   keep name and kind (their tree is an object of the heap) *)
+Theorem load_flat_module f fs g ls ds n gb :
+  load (S f) fs g ls (map (SDef KDefine) ds) (fresh_builder n) = Ok gb ->
   Forall2 same_shape (map (fun d => norm_def g (mangle_def ls d)) ds) (b_defs gb) /\
   NoDup (map (fun d => mangle ls (d_name d)) ds) /\ b_ignore gb = [].
 Proof.
-  simpl. unfold collect_imports. rewrite collect_imports_defs. simpl.
-  rewrite apply_stmts_defs. simpl.
-  destruct (define_all g ls ds []) as [l|] eqn:E; simpl; [|discriminate].
-  destruct (resolve_terms (S (List.length l)) l) as [l'|] eqn:Er; simpl; [|discriminate].
-  intros H; inversion H; subst gb; clear H. simpl.
-  apply define_all_spec in E. destruct E as (-> & Hnd & _). simpl in Er.
-  apply resolve_terms_shape in Er. auto.
+  rewrite load_S. unfold collect_imports. rewrite collect_imports_defs. cbn [fold_left bind].
+  destruct (apply_stmts g ls (map (SDef KDefine) ds) (fresh_builder n)) as [b2|] eqn:E; [|discriminate].
+  cbn [bind]. destruct (resolve_heap (b_defs b2) (b_heap b2)) as [h|]; [|discriminate]. cbn [bind].
+  intros H; inversion H; subst gb; clear H. cbn [b_defs b_ignore].
+  apply apply_defs_spec in E. destruct E as (ds' & Hf & Hdefs & Hnd & _ & Hi).
+  simpl in Hdefs, Hi. rewrite Hdefs. split; [|split; auto].
+  clear -Hf. revert ds' Hf. induction ds as [|d ds IH]; intros ds' Hf; inversion Hf; subst; simpl; constructor.
+  - now apply norm_shape.
+  - now apply IH.
 Qed.
-Local Transparent resolve_terms.
 
 Lemma Forall2_In_r {A B} (R : A -> B -> Prop) l l' y :
   Forall2 R l l' -> In y l' -> exists x, In x l /\ R x y.
@@ -569,7 +659,7 @@ Qed.
    every reachable one is contributed); nothing already defined is captured *)
 Theorem import_is_inlining f fs g ls b p al ds b' :
   lookup_module p fs = Some (map (SDef KDefine) ds) ->
-  do_import (fun ls' ms => load (S f) fs g ls' ms empty_builder) fs ls b (p, al) = Ok b' ->
+  do_import (fun next ls' ms => load (S f) fs g ls' ms (fresh_builder next)) fs ls b (p, al) = Ok b' ->
   let ls' := (join "__" p, al) :: ls in
   exists gdefs kept,
     Forall2 same_shape (map (fun d => norm_def g (mangle_def ls' d)) ds) gdefs /\
@@ -603,12 +693,13 @@ Proof. apply define_dup. Qed.
 (* ------------------------------------------------------------------ templates *)
 Lemma tree_ind' (P : tree -> Prop) :
   (forall d ch, Forall P ch -> P (Nd d ch)) -> (forall b n, P (Sy b n)) -> (forall v, P (Tk v)) ->
-  forall t, P t.
+  (forall o, P (Ptr o)) -> forall t, P t.
 Proof.
-  intros Hn Hs Hk. fix IH 1. intros t. destruct t as [d ch|b n|v].
+  intros Hn Hs Hk Hp. fix IH 1. intros t. destruct t as [d ch|b n|v|o].
   - apply Hn. induction ch as [|c ch IHch]; constructor. apply IH. exact IHch.
   - apply Hs.
   - apply Hk.
+  - apply Hp.
 Qed.
 
 Lemma map_id_Forall {A} (f : A -> A) l : Forall (fun x => f x = x) l -> map f l = l.
@@ -618,16 +709,16 @@ Proof. induction 1; simpl; congruence. Qed.
 Theorem subst_fresh names t :
   (forall s, In s (syms t) -> assoc s names = None) -> subst names t = t.
 Proof.
-  induction t as [d ch IH|b n|v] using tree_ind'; simpl; auto. intros Hf.
+  induction t as [d ch IH|b n|v|o] using tree_ind'; simpl; auto. intros Hf.
   assert (Hm : map (subst names) ch = ch).
   { apply map_id_Forall. rewrite Forall_forall in *. intros c Hc. apply IH; auto.
     intros s Hs. apply Hf. apply in_flat_map. eauto. }
   rewrite Hm.
   destruct (String.eqb d "value").
-  - destruct ch as [|[ | b n | ] [|? ?]]; auto.
+  - destruct ch as [|[ | b n | | ] [|? ?]]; auto.
     rewrite (Hf n); auto. simpl. auto.
   - destruct (String.eqb d "template_usage"); auto.
-    destruct ch as [|[ | b n | ] rest]; auto.
+    destruct ch as [|[ | b n | | ] rest]; auto.
     rewrite (Hf n); auto. simpl. auto.
 Qed.
 
@@ -655,7 +746,7 @@ Theorem subst_syms names t s :
   In s (syms (subst names t)) ->
   In s (syms t) \/ exists a, In a (map snd names) /\ In s (syms a).
 Proof.
-  induction t as [d ch IH|b n|v] using tree_ind'; simpl; auto. intros H.
+  induction t as [d ch IH|b n|v|o] using tree_ind'; simpl; auto. intros H.
   assert (Hch : In s (flat_map syms (map (subst names) ch)) ->
                 In s (flat_map syms ch) \/ exists a, In a (map snd names) /\ In s (syms a)).
   { intros H0. apply in_flat_map in H0. destruct H0 as (c' & Hc' & Hs).
@@ -663,11 +754,11 @@ Proof.
     rewrite Forall_forall in IH. destruct (IH c Hc Hs) as [H1|H1]; auto.
     left. apply in_flat_map. eauto. }
   destruct (String.eqb d "value").
-  - destruct (map (subst names) ch) as [|[ | b n | ] [|? ?]] eqn:E; try (apply Hch; exact H).
+  - destruct (map (subst names) ch) as [|[ | b n | | ] [|? ?]] eqn:E; try (apply Hch; exact H).
     destruct (assoc n names) as [a|] eqn:Ea; [|apply Hch; exact H].
     right. exists a. split; auto. eapply assoc_In; eauto.
   - destruct (String.eqb d "template_usage"); [|apply Hch; exact H].
-    destruct (map (subst names) ch) as [|[ | b n | ] rest] eqn:E; try (apply Hch; exact H).
+    destruct (map (subst names) ch) as [|[ | b n | | ] rest] eqn:E; try (apply Hch; exact H).
     destruct (assoc n names) as [a|] eqn:Ea; [|apply Hch; exact H].
     simpl in H. apply in_app_or in H. destruct H as [H|H].
     + right. exists a. split; auto. eapply assoc_In; eauto.
